@@ -39,7 +39,8 @@ def asc_contract(cls, tonic_pre, split=None):
     pat = PATTERN[cls]
     p = len(pat)
     ens = [("one-octave-repeated-n-times-then-the-tonic", "is_periodic(result, %d, self.octaves)" % p),
-           ("begins-on-the-tonic", "result[0] == self.tonic")]
+           ("begins-on-the-tonic", "result[0] == self.tonic"),
+           ("a-list-of-its-own-every-time", "is_fresh(result)")]
     for i in range(p):
         nxt = "result[%d]" % (i + 1) if i + 1 < p else "result[0]"
         ens.append(("step%d-is-%d" % (i + 1, pat[i]), "step(result[%d], %s) == %d" % (i, nxt, pat[i])))
@@ -63,7 +64,7 @@ CONTRACTS[M + "Diatonic.ascending"] = dict(
     requires=[("tonic", ANY), ("octaves", "self.octaves >= 1")],
     returns="periodic[7, self.octaves, =self.tonic]", pure=True, modifies=[], skip_callee_clauses=LIGHT,
     ensures=[("one-octave-repeated-n-times-then-the-tonic", "is_periodic(result, 7, self.octaves)"),
-             ("begins-on-the-tonic", "result[0] == self.tonic")] +
+             ("begins-on-the-tonic", "result[0] == self.tonic"), ("a-list-of-its-own-every-time", "is_fresh(result)")] +
             [x for i in range(1, 7) for x in (
                 ("step%d" % i, "step(result[%d], result[%d]) == (1 if %d in self.semitones else 2)" % (i - 1, i, i)),
                 ("note%d-valid" % i, "is_name(result[%d])" % i),
@@ -87,7 +88,8 @@ INLINE |= set([M + "_Scale.descending", M + "_Scale.degree", M + "_Scale.__len__
 
 def desc_contract(cls, desc_pattern, tonics):
     ens = [("one-octave-repeated-n-times-then-the-tonic", "is_periodic(result, 7, self.octaves)"),
-           ("begins-on-the-tonic", "result[0] == self.tonic")]
+           ("begins-on-the-tonic", "result[0] == self.tonic"),
+           ("a-list-of-its-own-every-time", "is_fresh(result)")]
     for i in range(7):
         nxt = "result[%d]" % (i + 1) if i + 1 < 7 else "result[0]"
         ens.append(("step%d-down-%d" % (i + 1, desc_pattern[i]), "step(%s, result[%d]) == %d" % (nxt, i, desc_pattern[i])))
@@ -113,7 +115,7 @@ CONTRACTS[M + "Chromatic.ascending"] = dict(
     params={"self": "Chromatic"}, requires=[("key", "is_key(self.key)"), ("octaves", "self.octaves >= 1")],
     returns="periodic[12, self.octaves, =self.tonic]", pure=True, modifies=[], skip_callee_clauses=LIGHT,
     ensures=[("twelve-notes-repeated-n-times-then-the-tonic", "is_periodic(result, 12, self.octaves)"),
-             ("begins-on-the-tonic", "result[0] == self.tonic")] +
+             ("begins-on-the-tonic", "result[0] == self.tonic"), ("a-list-of-its-own-every-time", "is_fresh(result)")] +
             [("step%d-is-1" % (i + 1), "step(result[%d], result[%d]) == 1" % (i, (i + 1) % 12)) for i in range(12)] +
             [("note%d-valid" % i, "is_name(result[%d])" % i) for i in range(1, 12)],
     split=_CHROM_SPLIT, split_is_domain=True, properties=["C05"], battery="scale:Chromatic")
@@ -121,7 +123,7 @@ CONTRACTS[M + "Chromatic.descending"] = dict(
     params={"self": "Chromatic"}, requires=[("key", "is_key(self.key)"), ("octaves", "self.octaves >= 1")],
     returns="periodic[12, self.octaves, =self.tonic]", pure=True, modifies=[], skip_callee_clauses=LIGHT,
     ensures=[("twelve-notes-repeated-n-times-then-the-tonic", "is_periodic(result, 12, self.octaves)"),
-             ("begins-on-the-tonic", "result[0] == self.tonic")] +
+             ("begins-on-the-tonic", "result[0] == self.tonic"), ("a-list-of-its-own-every-time", "is_fresh(result)")] +
             [("step%d-down-1" % (i + 1), "step(result[%d], result[%d]) == 1" % ((i + 1) % 12, i)) for i in range(12)] +
             [("note%d-valid" % i, "is_name(result[%d])" % i) for i in range(1, 12)],
     notes="known finding C05/chromatic-descending-spelling: the descent is spelled in flats, so it is the reverse "
